@@ -559,6 +559,13 @@ func (it *Interp) assert(c *term.Term, msg string) {
 		it.pushPC(c)
 		return
 	}
+	if !it.modelSatisfies(m, it.ts.Not(c)) {
+		// the back end returned a model that our own evaluator rejects: never report it
+		it.noteUnknown("assertion \"" + msg + "\" (solver model rejected by the evaluator)")
+		it.trace = append(it.trace, dec{B: true})
+		it.pushPC(c)
+		return
+	}
 	it.fail(Failure{Kind: "assert", Msg: msg, Inputs: it.modelInputs(m), Stack: it.stackString(), PathLen: len(it.trace)})
 	// continue along the side on which the assertion holds, if feasible
 	it.trace = append(it.trace, dec{B: true})
@@ -852,4 +859,20 @@ func Explore(prog *ssa.Program, entry *ssa.Function, cfg *Config, stubs map[stri
 	sort.Strings(res.Stubs)
 	res.WallS = time.Since(t0).Seconds()
 	return res
+}
+
+// modelSatisfies evaluates the path condition and q under model m with the engine's own term
+// evaluator. Terms containing uninterpreted functions cannot be evaluated and are accepted.
+func (it *Interp) modelSatisfies(m map[string]uint64, q *term.Term) bool {
+	cache := map[*term.Term]uint64{}
+	all := append(append([]*term.Term(nil), it.pc...), q)
+	for _, t := range all {
+		if term.HasOp(t, map[*term.Term]bool{}, term.OpUF) {
+			continue
+		}
+		if it.ts.Eval(t, m, cache) != 1 {
+			return false
+		}
+	}
+	return true
 }
